@@ -1,3 +1,4 @@
+import AmVerif.Gen.Tables
 import AmVerif.Model.World
 import AmVerif.Gen.Skel
 import AmVerif.Lemmas.Ledger
@@ -185,5 +186,9 @@ example : (runH 9 [(exEnvReent, .api (.load exA))] ({}, {})).1.made.length = 3 â
 
 example : LedgerOK (runH 9 [(exEnvReent, .api (.load exA))] ({}, {})).1 :=
   C13_ledger_history 9 _ ({}, {}) C13_ledger_init
+
+/-- `hot_reload` lends the reloader thread raw pointers into the cache and relies on `wait_for_answer` not returning before
+the answer: the crate's `Condvar::wait_while` waits without bound and re-checks its condition (both lock implementations). -/
+theorem C13_wait_while_rechecks : AmVerif.Gen.waitWhileRechecksStd = true âˆ§ AmVerif.Gen.waitWhileRechecksParkingLot = true := by decide
 
 end AmVerif.Props.C13
